@@ -1,5 +1,5 @@
 """Result collection, evidence files, known findings, VIOLATION lines."""
-import json, os, re, time
+import hashlib, json, os, re, time
 
 VERIF = os.path.dirname(os.path.dirname(os.path.abspath(__file__)))
 EVID = os.path.join(VERIF, "evidence")
@@ -73,7 +73,7 @@ class Check:
                 out_lines.append("KNOWN-FINDING: property=%s %s (%s)" % (self.pid, known[v["key"]], v["key"]))
                 continue
             unknown += 1
-            rp = os.path.join(REPLAY, "%s-%s.json" % (self.pid, _slug(v["key"])[:80]))
+            rp = os.path.join(REPLAY, "%s-%s-%s.json" % (self.pid, _slug(v["key"])[:60], hashlib.md5(v["key"].encode()).hexdigest()[:8]))
             with open(rp, "w") as fh:
                 json.dump({"property": self.pid, "rule": v["rule"], "rule_text": self.rules.get(v["rule"], ""),
                            "key": v["key"], "where": v["where"], "message": v["msg"], "detail": v["detail"]},
